@@ -228,14 +228,15 @@ def run_check(prop_id, tier, base_seed, workers=None, runs=None):
         seen.setdefault(v["class_key"], v)
     known = [k for k in load_known() if k.get("property") == prop_id]
     exit_code = 0
-    os.makedirs(REPLAYS, exist_ok=True)
+    replays = REPLAYS if not os.environ.get("SIMLDAP_NO_EVIDENCE") else os.path.join(OUT, "scratch-replays")
+    os.makedirs(replays, exist_ok=True)
     n_viol = 0
     reported = []
     for ck, v in sorted(seen.items()):
         kn = next((k for k in known if k.get("class") == ck), None)
         ops, tries = ddmin(prop, v["ops"], ck)
         chk = execute(prop, ops, collect=False)
-        path = os.path.join(REPLAYS, "%s-%d.json" % (prop_id, v["seed"]))
+        path = os.path.join(replays, "%s-%d.json" % (prop_id, v["seed"]))
         doc = {"property": prop_id, "class_key": ck, "detail": (chk["violation"].detail if chk["violation"] else v["detail"]),
                "verif_seed": base_seed, "tier": tier, "run_index": v["idx"], "run_seed": v["seed"],
                "repo_sha": repo_sha(), "original_len": len(v["ops"]), "shrink_tries": tries,
@@ -253,7 +254,8 @@ def run_check(prop_id, tier, base_seed, workers=None, runs=None):
                 ck, agg["viol_counts"].get(ck, 0), len(v["ops"]) - 1, len(ops) - 1, doc["detail"][:300]))
         reported.append(ck)
     wall = time.time() - t0
-    write_evidence(prop, prop_id, tier, base_seed, agg, wall, n_viol, total, workers)
+    if not os.environ.get("SIMLDAP_NO_EVIDENCE"):
+        write_evidence(prop, prop_id, tier, base_seed, agg, wall, n_viol, total, workers)
     warn = prop.warnings(agg, tier)
     for w in warn:
         print("WARNING: %s" % w)
